@@ -140,7 +140,17 @@ def run(ck, prog, ctx):
                         pairs.add((ACC[a[1].rsplit("::", 1)[-1]], p))
         need = {(x, p) for x in ("name", "parents", "obsolete", "replacement") for p in (1, 2)}
         miss = sorted(need - pairs)
-        ck.ob("COVER", "HpoTermDelta/decision", not miss, "the changed-decision of HpoTermDelta::new depends on %d/8 (attribute, side) pairs%s" % (len(need & pairs), "" if not miss else "; missing: %s" % [(a, "lhs" if p == 1 else "rhs") for a, p in miss]), where=hd.where())
+        deleg_dec = None
+        for bi in sorted(hd.reach):
+            x = hd.blocks[bi].term
+            if x.k == "switch":
+                for a in pvn.of_operand(hd, x.discr):
+                    if a[0] == "call" and a[3] == hd.id and a[1] in prog.bodies and prog.bodies[a[1]].file == hd.file and not (prog.bodies[a[1]].exported or prog.bodies[a[1]].reachable or prog.bodies[a[1]].impl_trait):
+                        deleg_dec = prog.bodies[a[1]]
+        if miss and deleg_dec is not None:
+            ck.undecided("COVER", "HpoTermDelta/decision", "HpoTermDelta::new lets the private %s decide on the value it has built: which of the eight (attribute, side) pairs that decision looks at is not traced through the struct" % deleg_dec.short, where=hd.where())
+        else:
+            ck.ob("COVER", "HpoTermDelta/decision", not miss, "the changed-decision of HpoTermDelta::new depends on %d/8 (attribute, side) pairs%s" % (len(need & pairs), "" if not miss else "; missing: %s" % [(a, "lhs" if p == 1 else "rhs") for a, p in miss]), where=hd.where())
         # each scalar attribute is compared for (in)equality between the two sides: old value vs new value
         cmps = []
         pv_c = Prov(prog, inline=False)
@@ -192,6 +202,9 @@ def run(ck, prog, ctx):
                 if {frozenset(lp), frozenset(rp)} == {frozenset({1}), frozenset({2})}:
                     seen_attr[x] = line
         for x in ("name", "obsolete", "replacement"):
+            if x not in seen_attr and deleg_dec is not None:
+                ck.undecided("COVER", "HpoTermDelta/compares/" + x, "the comparison of the old and the new %s is not in HpoTermDelta::new itself (the private %s decides on the built value)" % (x, deleg_dec.short), where=hd.where())
+                continue
             ck.ob("COVER", "HpoTermDelta/compares/" + x, x in seen_attr, "HpoTermDelta::new %s" % (("compares the old and the new %s for equality" % x) if x in seen_attr else ("never compares the old %s with the new %s for equality: a term whose %s changed from one value to another is not reported" % (x, x, x))), where=hd.where(seen_attr.get(x)))
         agg = [s for _, s in hd.stmts() if s.k == "assign" and s.rv["k"] == "agg" and s.rv.get("adt", "").endswith("HpoTermDelta")]
         DIRECT = {"parents", "parent_ids"}
@@ -211,6 +224,9 @@ def run(ck, prog, ctx):
             st = agg[0]
             nm = {frozenset({1}): "lhs", frozenset({2}): "rhs"}
             for fld, want in (("removed_parents", ({1}, {2})), ("added_parents", ({2}, {1}))):
+                if fld not in st.rv["fields"]:
+                    ck.undecided("ROLE", "HpoTermDelta/" + fld, "the private field `%s` is not part of the struct literal (another private representation of the delta): what the public getter of that name hands out is not traced" % fld, where=(hd if "HpoTermDelta" == "HpoTermDelta" else ad).where(st.line))
+                    continue
                 op = st.rv["ops"][st.rv["fields"].index(fld)]
                 at = pvn.of_operand(hd, op)
                 used = [subs[a[4]] for a in at if a[0] == "call" and a[3] == hd.id and a[4] in subs]
@@ -242,6 +258,32 @@ def run(ck, prog, ctx):
             rm = {}
             for i, a in enumerate(t.args):
                 is_tuple = a.place is not None and a.place.is_local() and str(b.locals[a.place.local].get("s", "")).startswith("(")
+                # a private struct built here and handed over (by value or by reference): its fields are the components
+                struct_ops = None
+                if not is_tuple and a.place is not None and a.place.is_local():
+                    l_ = a.place.local
+                    for _hop in range(4):
+                        ds_ = pvn.defs(b).get(l_, [])
+                        if len(ds_) != 1 or ds_[0][0] != "assign":
+                            break
+                        d_ = ds_[0][2]
+                        if d_.rv["k"] == "agg" and d_.rv.get("agg") == "adt" and d_.rv.get("fields"):
+                            struct_ops = list(zip(d_.rv["fields"], d_.rv["ops"]))
+                            break
+                        if d_.rv["k"] == "ref":
+                            l_ = d_.rv["place"].local
+                        elif d_.rv["k"] == "use" and d_.rv["op"].place is not None:
+                            l_ = d_.rv["op"].place.local
+                        else:
+                            break
+                if struct_ops is not None:
+                    for fname, fop in struct_ops:
+                        at = pv.of_operand(b, fop)
+                        sds = params_of(at, b.id)
+                        attrs = {x[1].rsplit("::", 1)[-1] for x in at if x[0] == "call" and x[3] == b.id and x[1].rsplit("::", 1)[-1] in ("name", "hpo_terms", "id")}
+                        if sds and attrs:
+                            rm[(i + 1, fname)] = (frozenset(sds), frozenset(attrs))
+                    continue
                 for comp in (("0", "1", "2") if is_tuple else (None,)):
                     at = pv.of_operand(b, a, (("f", comp, "tuple"),)) if comp is not None else pv.of_operand(b, a)
                     sds = params_of(at, b.id)
@@ -271,7 +313,7 @@ def run(ck, prog, ctx):
         out = set()
         for a in atoms:
             if a[0] == "param" and ad is not None and a[1] == ad.id:
-                fs = [e[1] for e in a[3] if e[0] == "f" and e[2] == "tuple"]
+                fs = [e[1] for e in a[3] if e[0] == "f"]
                 r = role_of.get((a[2], fs[0] if fs else None)) or role_of.get((a[2], None))
                 if r is not None:
                     out.add(r)
@@ -286,6 +328,9 @@ def run(ck, prog, ctx):
             st = agg[0]
             subsA = subtractions(prog, pv, pvn, ad)
             for fld, want in (("added_terms", (2, 1)), ("removed_terms", (1, 2))):
+                if fld not in st.rv["fields"]:
+                    ck.undecided("ROLE", "AnnotationDelta/" + fld, "the private field `%s` is not part of the struct literal (another private representation of the delta): what the public getter of that name hands out is not traced" % fld, where=(hd if "AnnotationDelta" == "HpoTermDelta" else ad).where(st.line))
+                    continue
                 op = st.rv["ops"][st.rv["fields"].index(fld)]
                 at = pvn.of_operand(ad, op)
                 used = [subsA[a[4]] for a in at if a[0] == "call" and a[3] == ad.id and a[4] in subsA]
@@ -301,6 +346,9 @@ def run(ck, prog, ctx):
             st = agg[0]
             for fld, attr in (("names", "name"), ("n_terms", "hpo_terms")):
                 if fld not in st.rv["fields"]:
+                    continue
+                if fld not in st.rv["fields"]:
+                    ck.undecided("ROLE", "AnnotationDelta/" + fld, "the private field `%s` is not part of the struct literal (another private representation of the delta): what the public getter of that name hands out is not traced" % fld, where=(hd if "AnnotationDelta" == "HpoTermDelta" else ad).where(st.line))
                     continue
                 op = st.rv["ops"][st.rv["fields"].index(fld)]
                 r0, r1 = roles(pv.of_operand(ad, op, (("f", "0", "tuple"),))), roles(pv.of_operand(ad, op, (("f", "1", "tuple"),)))
@@ -325,7 +373,17 @@ def run(ck, prog, ctx):
                         r = {sd for sd, at_ in roles(subsA_all[a[4]]["A"])}
                         got.add("added" if r == {2} else "removed" if r == {1} else "?")
             need = {"added", "removed", "names.0", "names.1"}
-            ck.ob("COVER", "AnnotationDelta/decision", need <= got, "the changed-decision of AnnotationDelta::delta depends on %s%s" % (sorted(got & need), "" if need <= got else "; missing %s" % sorted(need - got)), where=ad.where())
+            opaque = []
+            for bi in sorted(ad.reach):
+                x = ad.blocks[bi].term
+                if x.k == "switch":
+                    for a in pvn.of_operand(ad, x.discr):
+                        if a[0] == "call" and a[3] == ad.id and a[4] not in subsA_all and a[1] in prog.bodies and prog.bodies[a[1]].file == ad.file and not (prog.bodies[a[1]].exported or prog.bodies[a[1]].reachable or prog.bodies[a[1]].impl_trait):
+                            opaque.append(prog.bodies[a[1]].short)
+            if not (need <= got) and opaque and {"names.0", "names.1"} <= got:
+                ck.undecided("COVER", "AnnotationDelta/decision", "the changed-decision of AnnotationDelta::delta looks at the names and at the result of the private %s: whether that covers the added AND the removed terms is not traced" % opaque[0], where=ad.where())
+            else:
+                ck.ob("COVER", "AnnotationDelta/decision", need <= got, "the changed-decision of AnnotationDelta::delta depends on %s%s" % (sorted(got & need), "" if need <= got else "; missing %s" % sorted(need - got)), where=ad.where())
 
     # ---- accessors: a method named after a field returns that field, not a sibling of the same type
     ck.rule("GETTER", "an accessor `f()` / `f_mut()` of a struct with a field `f` (or its documented alias) derives its result from that field (DESIGN 3.9)")
